@@ -466,6 +466,39 @@ V("C14", "donor-filter-looks-at-hydrogen-only", "mdtraj/geometry/hbond.py", "   
 V("C14", "twin-donor-filter-all", "mdtraj/geometry/hbond.py", "        atoms = [atom for atom in atoms if can_participate(atom[0]) and can_participate(atom[1])]",
   "        atoms = [atom for atom in atoms if all(can_participate(a_) for a_ in atom)]", None)
 
+D_ = "mdtraj/geometry/src/dssp.cpp"
+V("C15", "ladder-extents-hoisted-out-of-merge-loop", D_, """        for (int j = i + 1; j < (int) bridges.size(); ++j) {
+            int ibi = bridges[i].i.front();
+            int iei = bridges[i].i.back();
+            int jbi = bridges[i].j.front();
+            int jei = bridges[i].j.back();
+""", """        const int ibi = bridges[i].i.front();
+        const int iei = bridges[i].i.back();
+        const int jbi = bridges[i].j.front();
+        const int jei = bridges[i].j.back();
+        for (int j = i + 1; j < (int) bridges.size(); ++j) {
+""", "C15-R4", "calculate_beta_sheets")
+V("C15", "twin-ladder-extents-of-j-declared-first", D_, """            int ibi = bridges[i].i.front();
+            int iei = bridges[i].i.back();
+            int jbi = bridges[i].j.front();
+            int jei = bridges[i].j.back();
+            int ibj = bridges[j].i.front();
+            int iej = bridges[j].i.back();
+            int jbj = bridges[j].j.front();
+            int jej = bridges[j].j.back();
+""", """            int ibj = bridges[j].i.front();
+            int iej = bridges[j].i.back();
+            int jbj = bridges[j].j.front();
+            int jej = bridges[j].j.back();
+            int ibi = bridges[i].i.front();
+            int iei = bridges[i].i.back();
+            int jbi = bridges[i].j.front();
+            int jei = bridges[i].j.back();
+""", None)
+V("C17", "vectors-setter-no-cell-from-diagonal", "mdtraj/core/trajectory.py", "        if vectors is None or np.all(np.abs(vectors) < 1e-15):", "        if vectors is None or np.all(np.abs(np.diagonal(vectors, axis1=-2, axis2=-1)) < 1e-15):", "C17-R4", "Trajectory.unitcell_vectors.setter")
+V("C17", "twin-vectors-setter-max-abs", "mdtraj/core/trajectory.py", "        if vectors is None or np.all(np.abs(vectors) < 1e-15):", "        if vectors is None or np.max(np.abs(vectors)) < 1e-15:", None)
+V("C01", "rst7-two-atom-box-needs-more-than-60", "mdtraj/formats/amberrst.py", "                tmp = [float(line[i : i + 12]) >= 60.0 for i in range(0, 72, 12)]", "                tmp = [float(line[i : i + 12]) > 60.0 for i in range(0, 72, 12)]", "C01-R8", "AmberRestartFile.write / ._parse")
+
 # twins learnt from the independently seeded changes (the refactoring without the bug must stay silent)
 V("C04", "twin-hdf5-getter-uses-dict-get", "mdtraj/formats/hdf5.py",
   """                try:
